@@ -11,6 +11,8 @@ import Zrnt.Gen.SszFacts
     schema <Type> <cfg>               the evaluated schema as an s-expression (drives the harness generators)
     d <label> <Type> <cfg> <hex>      strict decode at the schema; `err`, or
                                       `ok len=<byteLength> fixed=<fixedLen> htr=<hash_tree_root>`
+    z <label> <Type> <cfg> <root>     root of the type's DEFAULT value; `<root>` is what Go's zero value of the type
+                                      (slice-backed vectors sized, never decoded from bytes) hashes to
     st <label> <Type> <cfg> <claimed root> <hex>
                                       a tree-backed state after a mutation step: `err`, or
                                       `ok htr=<r> claimed=<r>` with `r` the hash_tree_root of the bytes: the EXPECTED answer.
@@ -90,6 +92,11 @@ def sszLine (line : String) : String :=
     match tyOf name cfg, parseHex hex with
     | some t, some b => decodeLine name t b.data.toList
     | _, _ => "bad-op"
+  | ["z", _, name, cfg, _] =>
+    -- the Go zero value of the type, hashed without ever having been decoded: expected root = root of the default value
+    match tyOf name cfg with
+    | some t => s!"ok htr={hexOf (htr sha2 t (defaultVal t))}"
+    | none => "bad-op"
   | ["st", _, name, cfg, claimed, hex] =>
     match tyOf name cfg, parseHex hex with
     | some t, some b =>
